@@ -470,3 +470,29 @@ package anchoring
 //@   property C07 C19 C20
 //@   nopanic
 //@   ensures [name] result == "newCriterion"
+
+//@ func addedCriterionName
+//@   property C19 C07 C09
+//@   ensures [prefix_plus_reference_point_then_count] result == (model.cntp(*criteria, "__anchoring_criterion_" + refPointDif, len(*criteria)) == 0 ? "__anchoring_criterion_" + refPointDif
+//@             : "__anchoring_criterion_" + refPointDif + itoa(model.cntp(*criteria, "__anchoring_criterion_" + refPointDif, len(*criteria))))
+
+// ---- the reference points are what the evaluator named in the request makes of the request's anchoring alternatives
+//@ func (*Anchoring).evaluateAnchoringAlternatives
+//@   property C19 C09
+//@   returnhint [named_evaluator_on_the_requests_anchors] refPointsName(referencePointsEvaluator) == parsedProps.ReferencePoints.Function
+//@             && len(*anchoringAlternatives) == len(parsedProps.AnchoringAlternatives)
+//@             && forall k int :: 0 <= k && k < len(*anchoringAlternatives) ==> (*anchoringAlternatives)[k].Alternative.Id == parsedProps.AnchoringAlternatives[k].Alternative
+//@                  && (*anchoringAlternatives)[k].Coefficient == parsedProps.AnchoringAlternatives[k].Coefficient
+//@   ensures [some_points] true
+//@ func (*Anchoring).knownAnchoringEvaluatorsNames
+//@   property C19 C20 C09
+//@   ensures [names] fresh(result) && len(result) == len(a.anchoringEvaluators) && forall k int :: 0 <= k && k < len(a.anchoringEvaluators) ==> result[k] == evalName(a.anchoringEvaluators[k])
+//@   loop 1 invariant [so_far] fresh(existing) && len(existing) == len(a.anchoringEvaluators) && forall k int :: 0 <= k && k < iter ==> existing[k] == evalName(a.anchoringEvaluators[k])
+//@ func (*Anchoring).knownReferencePointsEvaluatorsNames
+//@   property C19 C20 C09
+//@   ensures [names] fresh(result) && len(result) == len(a.referencePointsEvaluators) && forall k int :: 0 <= k && k < len(a.referencePointsEvaluators) ==> result[k] == refPointsName(a.referencePointsEvaluators[k])
+//@   loop 1 invariant [so_far] fresh(existing) && len(existing) == len(a.referencePointsEvaluators) && forall k int :: 0 <= k && k < iter ==> existing[k] == refPointsName(a.referencePointsEvaluators[k])
+//@ func (*Anchoring).knownAnchoringAppliersNames
+//@   property C19 C20 C09
+//@   ensures [names] fresh(result) && len(result) == len(a.anchoringAppliers) && forall k int :: 0 <= k && k < len(a.anchoringAppliers) ==> result[k] == applierName(a.anchoringAppliers[k])
+//@   loop 1 invariant [so_far] fresh(existing) && len(existing) == len(a.anchoringAppliers) && forall k int :: 0 <= k && k < iter ==> existing[k] == applierName(a.anchoringAppliers[k])
